@@ -1,0 +1,97 @@
+//go:build verif
+
+package actor
+
+// Contracts for property C16 (reentrant requests), sequential kernel: a request
+// completes at most once, its continuation is handed out exactly once, the
+// in-flight limit is never exceeded, the counters are released symmetrically,
+// and the stash gate is closed exactly while a blocking request is outstanding.
+
+//@ property C16
+//@ load github.com/tochemey/goakt/v4/errors go.uber.org/atomic sync/atomic github.com/tochemey/goakt/v4/internal/xsync github.com/tochemey/goakt/v4/reentrancy github.com/tochemey/goakt/v4/internal/commands
+
+// ---- one request: completes exactly once -----------------------------------------
+//@ func (*requestState).complete(s, result, err)
+//@   ensures first-completion-wins: !old(s.completed) ==> result1 && s.completed && s.result == result && s.err == err && result0 == old(s.callback)
+//@   ensures duplicates-are-ignored: old(s.completed) ==> !result1 && result0 == nil && s.completed && s.result == old(s.result) && s.err == old(s.err) && s.callback == old(s.callback)
+//@   modifies requestState.completed, requestState.result, requestState.err
+
+//@ ghost var cb_runs int
+//@ func (*requestState).setCallback(s, callback)
+//@   preserve requestState.completed, requestState.result, requestState.err, requestState.callback
+//@   at call 1 of dynamic assert runs-only-a-completed-request-with-its-outcome: old(s.completed) && old(s.callback) == nil && arg0 == old(s.result) && arg1 == old(s.err)
+//@   at call 1 of dynamic ghost cb_runs = cb_runs + 1
+//@   ensures one-shot: old(s.callback) != nil ==> s.callback == old(s.callback) && cb_runs == old(cb_runs)
+//@   ensures deferred-until-completion: old(s.callback) == nil && !old(s.completed) ==> cb_runs == old(cb_runs)
+//@   ensures immediate-when-already-complete: old(s.callback) == nil && old(s.completed) ==> cb_runs == old(cb_runs) + 1
+//@ structural writers requestState.completed: (*requestState).complete
+//@ structural writers requestState.result: (*requestState).complete
+//@ structural writers requestState.err: (*requestState).complete
+//@ structural writers requestState.callback: (*requestState).setCallback
+
+//@ func (*requestState).cancel(s)
+//@   requires s.requester != nil
+//@   at call 1 of invoke enqueueAsyncError assert cancels-only-a-pending-request-once: !old(s.completed) && !old(s.cancelRequested) && arg2 == s.id
+//@   ensures idempotent: old(s.completed) || old(s.cancelRequested) ==> result == nil && s.cancelRequested == old(s.cancelRequested)
+
+// ---- the actor's in-flight bookkeeping ------------------------------------------------
+// class invariant of reentrancyState: its registry exists (constructor-established)
+//@ structural writers reentrancyState.requestStates: newReentrancyState
+//@ spec func re_ok(r *reentrancyState) bool = r == nil || (r.requestStates != nil && r.requestStates.data != nil)
+
+//@ ghost local reg_re *reentrancyState
+//@ func (*PID).registerRequestState(pid, state)
+//@   requires re_ok((*reentrancyState)(pid.reentrancy.p.v))
+//@   at call 1 of (*Pointer).Load ghost reg_re = result
+//@   loop 1 invariant nothing-claimed-yet: reg_re != nil && reg_re.inFlightCount.v == old(now(reg_re).inFlightCount.v) && reg_re.blockingCount.v == old(now(reg_re).blockingCount.v) && reg_re.maxInFlight.v == maxInFlight && maxInFlight > 0
+//@   ensures disabled-is-an-error: reg_re == nil ==> result != nil
+//@   ensures limit-never-exceeded: reg_re != nil && old(now(reg_re).maxInFlight.v) > 0 && old(now(reg_re).inFlightCount.v) <= old(now(reg_re).maxInFlight.v) ==> reg_re.inFlightCount.v <= old(now(reg_re).maxInFlight.v)
+//@   ensures at-the-limit-is-rejected: reg_re != nil && state != nil && old(now(reg_re).maxInFlight.v) > 0 && old(now(reg_re).inFlightCount.v) >= old(now(reg_re).maxInFlight.v) ==> result != nil
+//@   ensures rejected-claims-nothing: reg_re != nil && result != nil ==> reg_re.inFlightCount.v == old(now(reg_re).inFlightCount.v) && reg_re.blockingCount.v == old(now(reg_re).blockingCount.v)
+//@   ensures admitted-is-counted-once: reg_re != nil && result == nil && old(now(reg_re).inFlightCount.v) < 9223372036854775807 ==> reg_re.inFlightCount.v == old(now(reg_re).inFlightCount.v) + 1
+//@   ensures admitted-blocking-counted: reg_re != nil && result == nil && old(now(reg_re).blockingCount.v) < 9223372036854775807 ==> reg_re.blockingCount.v == old(now(reg_re).blockingCount.v) + ite(state.mode == reentrancy.StashNonReentrant, 1, 0)
+//@   ensures admitted-is-registered: reg_re != nil && result == nil ==> has(reg_re.requestStates.data, state.id) && reg_re.requestStates.data[state.id] == state
+
+//@ ghost local dereg_re *reentrancyState
+//@ ghost local unstash_calls int
+//@ func (*PID).deregisterRequestState(pid, state)
+//@   requires re_ok((*reentrancyState)(pid.reentrancy.p.v)) && pendingRedelivery == 0
+//@   async-boundary (*PID).doReceive, (*PID).unstashAll
+//@   preserve reentrancyState.requestStates, reentrancyState.requestStates.data, requestState.mode, requestState.id, reentrancyState.inFlightCount, reentrancyState.blockingCount
+//@   at call 1 of (*Pointer).Load ghost dereg_re = result
+//@   at call 1 of (*PID).unstashAll assert only-when-the-last-blocking-request-ends: state.mode == reentrancy.StashNonReentrant && dereg_re.blockingCount.v == 0
+//@   at call 1 of (*PID).unstashAll ghost unstash_calls = unstash_calls + 1
+//@   ensures unknown-request-releases-nothing: dereg_re != nil && state != nil && !old(has(now(dereg_re).requestStates.data, state.id)) ==> dereg_re.inFlightCount.v == old(now(dereg_re).inFlightCount.v) && dereg_re.blockingCount.v == old(now(dereg_re).blockingCount.v) && unstash_calls == old(unstash_calls)
+//@   ensures released-exactly-once: dereg_re != nil && state != nil && old(has(now(dereg_re).requestStates.data, state.id)) && old(now(dereg_re).inFlightCount.v) > -9223372036854775808 && old(now(dereg_re).blockingCount.v) > -9223372036854775808 ==> dereg_re.inFlightCount.v == old(now(dereg_re).inFlightCount.v) - 1
+//@   ensures blocking-released-exactly-once: dereg_re != nil && state != nil && old(has(now(dereg_re).requestStates.data, state.id)) && old(now(dereg_re).inFlightCount.v) > -9223372036854775808 && old(now(dereg_re).blockingCount.v) > -9223372036854775808 ==> dereg_re.blockingCount.v == old(now(dereg_re).blockingCount.v) - ite(old(state.mode) == reentrancy.StashNonReentrant, 1, 0)
+//@   ensures request-forgotten: dereg_re != nil && state != nil && old(has(now(dereg_re).requestStates.data, state.id)) && old(now(dereg_re).inFlightCount.v) > -9223372036854775808 && old(now(dereg_re).blockingCount.v) > -9223372036854775808 ==> !has(dereg_re.requestStates.data, old(state.id))
+//@   ensures held-messages-released-with-the-last-blocking-request: dereg_re != nil && state != nil && old(has(now(dereg_re).requestStates.data, state.id)) && old(state.mode) == reentrancy.StashNonReentrant && old(now(dereg_re).blockingCount.v) == 1 ==> unstash_calls == old(unstash_calls) + 1
+
+// the stash gate: ordinary messages are held exactly while a blocking request is outstanding
+//@ ghost local gate_re *reentrancyState
+//@ func (*PID).enableReentrancyStash(pid, received)
+//@   requires received != nil
+//@   at call 1 of (*Pointer).Load ghost gate_re = result
+//@   ensures open-when-nothing-blocks: gate_re == nil || gate_re.blockingCount.v <= 0 ==> !result
+//@   ensures closed-for-ordinary-messages: gate_re != nil && gate_re.blockingCount.v > 0 ==> result == !(is(received.message, *commands.AsyncResponse) || is(received.message, *PoisonPill) || is(received.message, *commands.Panicking) || is(received.message, *PausePassivation) || is(received.message, *ResumePassivation))
+//@   modifies nothing
+
+//@ structural writers reentrancyState.inFlightCount: (*PID).registerRequestState, (*PID).deregisterRequestState, (*PID).cancelInFlightRequests, (*reentrancyState).reset, (*grainPID).registerRequestState, (*grainPID).deregisterRequestState
+//@ structural writers reentrancyState.blockingCount: (*PID).registerRequestState, (*PID).deregisterRequestState, (*PID).cancelInFlightRequests, (*reentrancyState).reset, (*grainPID).registerRequestState, (*grainPID).deregisterRequestState
+//@ structural writers requestState.mode: newRequestState
+//@ structural writers requestState.id: newRequestState
+
+// completion of a request by correlation id: only the first completion releases
+// the bookkeeping and runs the continuation, once, with that outcome
+//@ ghost local cr_completed bool
+//@ ghost local cr_cb_runs int
+//@ func (*PID).completeRequest(pid, correlationID, outcome, err)
+//@   requires re_ok((*reentrancyState)(pid.reentrancy.p.v)) && pendingRedelivery == 0
+//@   ghost entry cr_completed = false
+//@   at call 1 of (*requestState).complete assert completes-the-registered-request: arg0 == state && arg1 == outcome && arg2 == err
+//@   at call 1 of (*requestState).complete ghost cr_completed = result1
+//@   at call 1 of (*PID).deregisterRequestState assert releases-only-on-the-first-completion: cr_completed && arg1 == state
+//@   at call 1 of dynamic assert continuation-runs-once-with-the-outcome: cr_completed && arg0 == outcome && arg1 == err
+//@   at call 1 of dynamic ghost cr_cb_runs = cr_cb_runs + 1
+//@   ensures at-most-one-continuation: cr_cb_runs <= old(cr_cb_runs) + 1
+//@ structural callers (*requestState).complete: (*PID).completeRequest, (*grainPID).completeRequest, (*PID).cancelInFlightRequests, (*grainPID).cancelInFlightRequests, (*grainPID).teardownInFlightRequests, completedRequestCall
